@@ -1,5 +1,6 @@
 """Generic worker for checks that run catalogue entries: explore once, validate the translation of every path,
 then hand the traces to a property-specific analysis."""
+import re
 import z3
 
 from symtrace import engine as E, harness as H, oblig as O
@@ -30,6 +31,7 @@ def cfg_json(cfg):
 def region_term(k, vals, env, cfg, extra=None):
     """region predicate of a known finding as a z3 Bool over the harness inputs (and extras)"""
     ns = {nm: v.t for nm, v in vals.items()}
+    ns.update(notbit=lambda v: z3.And(v != 0, v != 1), isbit=lambda v: z3.Or(v == 0, v == 1))
     ns.update(And=z3.And, Or=z3.Or, Not=z3.Not, P=env.P, n=cfg.get("n", 4), r=cfg.get("r", 2), true=z3.BoolVal(True),
               false=z3.BoolVal(False), If=z3.If)
     if extra:
@@ -119,6 +121,8 @@ class Job:
         replay["kind"] = replay.get("kind", kind)
         f = dict(what="%s: %s" % (self.name, what), known=None, replay=replay)
         kfs = C.known_for(self.known, self.entry.name + "/" + gtag(self.cfg), regions_kind or kind)
+        exc_repr = (extra_ns or {}).get("exc_repr")
+        kfs = [k for k in kfs if not k.get("exc") or (exc_repr is not None and re.search(k["exc"], exc_repr))]
         if kfs and facts is not None and goal is not None:
             extra_ns = dict(extra_ns or {})
             for tg in self.entry.tags:
